@@ -23,6 +23,7 @@ type RunCtx struct {
 	Tracing bool
 	Variant int  // scenario family variant (set by the property's stratifier)
 	Race    bool // race mode: free-running goroutines under the race detector; no functional oracle
+	longRun bool // the next RunC1 gets the step budget of a long history
 
 	PostBubble []func() // run after the bubble has ended (e.g. checks that use real timers)
 	FPTokens   []string // scenario-shape tokens folded into the distinctness fingerprint (input-dominated properties)
